@@ -20,7 +20,7 @@ from tracelib import *
 PROP = "C03"
 LEVEL = "exploration"
 FLAVOUR = "plain"
-TIERS = {"quick": (6000, 170), "thorough": (250000, 3300)}
+TIERS = {"quick": (25000, 170), "thorough": (1500000, 3300)}
 RULE_TEXT = ("one run = one plan (generated chart incl. planted failing elements in 20% of the runs, or one self-contained W3C IRP document for null/lua/promela) executed "
              "twice, with engine 'large' and engine 'fast', in deterministic-history mode; the per-session recorder logs (monitor notifications, <log> output, raised and sent "
              "events, step() results, configurations) must be equal; non-trivial = at least 3 micro-step brackets compared; distinct = distinct document+history content hashes")
@@ -64,7 +64,7 @@ def gen_plan(seed, k):
                {"op": "run", "i": 0, "block": 50, "until": ["FINISHED"], "max": 600},
                {"op": "cancel", "i": 0}, {"op": "run", "i": 0, "block": 0, "until": ["FINISHED"], "max": 50}]
         return {"id": k, "seed": seed, "entropy_seed": seed & 0x7fffffff, "mode": "det", "engine": "large", "source": os.path.basename(os.path.dirname(f)) + "/" + os.path.basename(f),
-                "sched": {"seed": seed & 0x7fffffff, "policy": "nonpreempt", "max_decisions": 400000}, "step_budget": 900, "charts": {"main": txt}, "actors": {"main": ops}}
+                "sched": {"seed": seed & 0x7fffffff, "policy": "nonpreempt", "max_decisions": 400000}, "step_budget": 200, "charts": {"main": txt}, "actors": {"main": ops}}
     plan = workload.chart_and_history(seed, k, engine="large", adversarial_p=0.0, rec_micro=False, plant_p=0.2)
     plan["source"] = "generated"
     return plan
